@@ -566,6 +566,9 @@ def read_before_walrus(fn):
         if not isinstance(s, ast.stmt):
             continue
         loads, binds = [], []
+        if isinstance(s, ast.AugAssign) and isinstance(s.target, ast.Name):
+            # `z += (z := a).val` reads z (old value) before the right-hand side is evaluated
+            loads.append((s.target.id, (s.target.lineno, s.target.col_offset)))
         for e in own_exprs(s):
             for n in ast.walk(e):
                 if isinstance(n, ast.NamedExpr):
@@ -576,3 +579,15 @@ def read_before_walrus(fn):
             if any(y == x and pl < pb for y, pl in loads):
                 out.add(x)
     return out
+
+
+def assign_target_walrus(fn):
+    """`(g := b).val = g`: Python reads the right-hand side first; the operand of the target (an assignment
+    expression) is hoisted in front of the statement and rebinds a name the right-hand side reads --
+    the root cause of anf-assign-target-order, visible through a plain name"""
+    for s in ast.walk(fn):
+        if isinstance(s, ast.Assign):
+            bound = {n.target.id for t in s.targets for n in ast.walk(t) if isinstance(n, ast.NamedExpr)}
+            if bound & {n.id for n in ast.walk(s.value) if isinstance(n, ast.Name) and isinstance(n.ctx, ast.Load)}:
+                return True
+    return False
